@@ -672,6 +672,24 @@ def _table_snapshot(mod, table: str):
     collection that the same loop is still growing; ('unknown', why, loc) otherwise"""
     init = mod.func("ProtoClassMetadata.__init__")
     asg = next((n for n in ast.walk(init) if isinstance(n, ast.Assign) and isinstance(n.targets[0], ast.Attribute) and n.targets[0].attr == table), None)
+    if asg is not None and isinstance(asg.value, ast.DictComp) and asg in init.body:
+        # built in one expression at the top level of the constructor, after the loops that register the members: complete when
+        # it is keyed by every member (iterates the member -> group table) and takes each entry's members from the group table,
+        # leaving out at most the key itself
+        locals_of = {n.targets[0].attr: n.value.id for n in ast.walk(init) if isinstance(n, ast.Assign) and isinstance(n.targets[0], ast.Attribute) and isinstance(n.value, ast.Name)}
+        by_field, by_group = locals_of.get("oneof_group_by_field"), locals_of.get("oneof_field_by_group")
+        comp = asg.value
+        later_growth = any(isinstance(st, (ast.For, ast.While)) and st.lineno > asg.lineno and any(isinstance(x, ast.Name) and x.id in (by_field, by_group) for x in ast.walk(st)) for st in init.body)
+        g0 = comp.generators[0]
+        over_members = len(comp.generators) == 1 and not g0.ifs and by_field is not None and ast.unparse(g0.iter) in (f"{by_field}.items()", by_field, f"{by_field}.keys()")
+        key_name = g0.target.elts[0].id if isinstance(g0.target, ast.Tuple) and isinstance(g0.target.elts[0], ast.Name) else (g0.target.id if isinstance(g0.target, ast.Name) else None)
+        inner = [x for x in ast.walk(comp.value) if isinstance(x, (ast.GeneratorExp, ast.ListComp, ast.SetComp))]
+        from_groups = by_group is not None and any(ast.unparse(c.generators[0].iter).startswith(f"{by_group}[") for c in inner)
+        filters_ok = all(len(c.generators) == 1 and all(isinstance(f_, ast.Compare) and len(f_.ops) == 1 and isinstance(f_.ops[0], ast.NotEq) and key_name is not None
+                                                        and key_name in {x.id for x in ast.walk(f_) if isinstance(x, ast.Name)} for f_ in c.generators[0].ifs) for c in inner)
+        if over_members and from_groups and filters_ok and not later_growth and isinstance(comp.key, ast.Name) and comp.key.id == key_name:
+            return "complete", "one entry per member, built from the finished group table (all members of the group but the key itself)", mod.loc(asg)
+        return "unknown", "built by a comprehension whose coverage of the group's members is not recognised", mod.loc(asg)
     if asg is None or not isinstance(asg.value, ast.Name):
         return "unknown", "its construction was not found in ProtoClassMetadata.__init__", mod.loc(init)
     local = asg.value.id
@@ -720,9 +738,19 @@ def rule_O2(ctx) -> None:
     # the selection table, however the instance attribute is reached
     dict_get = CALL(A(A(SELF, "__dict__"), "get"), C("_group_current"))
     TABLES = {A(SELF, "_group_current"), ("sub", A(SELF, "__dict__"), C("_group_current")), dict_get}
-    # attr is a oneof member, __post_init__ has run: whichever way the code asks
-    paths = Interp(mod, assume={member_atom: True, post_atom: True, ("op", "is", get_call, C(None)): False, get_call: True, ("op", "is", dict_get, C(None)): False, dict_get: True,
-                                ("op", "in", C("_group_current"), A(SELF, "__dict__")): True}, fork_ifexp=True).run(fn)
+    # attr is a oneof member, __post_init__ has run: whichever way the code asks - of the member -> group table or of another
+    # per-class table that has one entry per member
+    assume0 = {member_atom: True, post_atom: True, ("op", "is", get_call, C(None)): False, get_call: True, ("op", "is", dict_get, C(None)): False, dict_get: True,
+               ("op", "in", C("_group_current"), A(SELF, "__dict__")): True}
+    for p0 in Interp(mod, assume=dict(assume0), fork_ifexp=True).run(fn):
+        for k in p0.valuation:
+            for t in walk(k):
+                if t[0] == "a" and t[1] == A(SELF, "_betterproto") and t[2] != "oneof_group_by_field":
+                    tbl = t
+                    g_ = ("call", A(tbl, "get"), (N(attr_p),), ())
+                    if k in (("op", "is", g_, C(None)), g_, ("op", "in", N(attr_p), tbl)) and _table_snapshot(mod, t[2])[0] == "complete":
+                        assume0[k] = (k[0] == "op" and k[1] == "in") or k == g_
+    paths = Interp(mod, assume=assume0, fork_ifexp=True).run(fn)
     ctx.count(len(paths))
     if not paths:
         raise AnalysisError("__setattr__: no path")
@@ -795,7 +823,7 @@ def rule_O2(ctx) -> None:
                 if e.kind == "loop" and isinstance(e.data, tuple):
                     t = e.data
                     for _ in range(6):      # the iterated container: strip subscripts / method calls down to _betterproto.<table>
-                        if t[0] == "sub":
+                        if t[0] in ("sub", "item"):
                             t = t[1]
                         elif t[0] == "call" and t[1][0] == "a":
                             t = t[1][1]
@@ -810,7 +838,9 @@ def rule_O2(ctx) -> None:
             ctx.inconclusive("O2", sel, "the members to reset do not come from a table of the class metadata", mod.loc(fn))
         elif other:
             verdict, why, loc = _table_snapshot(mod, other[0])
-            if verdict == "stale":
+            if verdict == "complete":
+                ctx.proved("O2", sel, loc, f"assigned member recorded, the other members reset from {other[0]}: {why}")
+            elif verdict == "stale":
                 ctx.refuted("O2", sel, f"stale-table:{other[0]}", loc,
                             f"the members to reset are taken from {other[0]}, {why}: members registered later are missing from the entries of earlier ones and are not reset",
                             "select the later-declared member, then assign the earlier-declared one; copy / encode")
